@@ -127,6 +127,17 @@ func ZZ_C11_Get() {
 	if ld.outcome != 1 {
 		s.loadOK++
 	}
+	if rx := s.env.cfg.refC; rx != nil {
+		// the refresh calculator is told what happened: reload with (new entry, old value), failure with (entry, error)
+		switch ld.outcome {
+		case 0:
+			vAssert(rx.nReload == 1 && rx.nFail == 0 && rx.lastVal == ld.val && rx.lastOld == v0, "c11.calculator.reload_sees_new_entry_and_old_value")
+		case 1:
+			vAssert(rx.nReload == 0 && rx.nFail == 1 && rx.lastVal == v0 && rx.lastErr == zzErrLoad, "c11.calculator.failure_sees_entry_and_error")
+		case 2:
+			vAssert(rx.nReload == 0 && rx.nFail == 0, "c11.calculator.not_consulted_for_a_removed_entry")
+		}
+	}
 	s.syncEvents("c11")
 	s.observe("c11.after_reload")
 	if ld.outcome == 1 {
